@@ -12,14 +12,16 @@ compares the two, story by story, inside Coq:
     dummy 0): the real message must name no line at all.
   A difference is `chk.disagree("diag-index", ...)`.
 
-For a `~` statement that spans several lines the real compiler adds Python's `e.lineno - 1` to the index (it names the
-continuation line Python blames).  The model does the same through the oracle py_stmt_errline (Compiler/ParseBase.v),
-which c11.Probe records from the real SyntaxError for every statement the compiler handed to ast.parse
-(`probe.errline`); nothing is compensated here.  Kind (s) of DiagCulprit.diag_classified: the real message must say
-"on line i + 1" and line i must lie inside a `~` statement of the pre-passed text (inside_statement_b).  The premise
-of DiagCulprit.culprit_stmt_site (errline_inside: Python blames a line of the text it was given) is checked on every
-rejected statement: `probe.errline[src] <= src.count("\n")`; a violation is `chk.disagree("oracle-premise", ...)`.
-Counted as evidence: "stmt_blamed_continuation_line" = cases whose blamed line is not the `~` line.
+For a `~` statement that spans several lines the real compiler adds Python's `e.lineno - 1`, clamped to the lines the
+statement consumed (fix F14c), to the index (it names the continuation line Python blames).  The model does the same
+through the oracle py_stmt_errline (Compiler/ParseBase.v), which c11.Probe records from the real SyntaxError for every
+statement the compiler handed to ast.parse (`probe.errline`); nothing is compensated here.  Kind (s) of
+DiagCulprit.diag_classified: the real message must say "on line i + 1" and line i must lie inside a `~` statement of the
+pre-passed text (inside_statement_b; DiagCulprit.culprit_stmt_site proves it for every oracle).
+Counted as evidence: "stmt_blamed_continuation_line" = cases whose blamed line is not the `~` line;
+"stmt_offset_beyond_text" = rejected statements for which Python blames a line past the text it was given (the premise
+errline_inside of DiagCulprit.clamp_is_identity fails and the clamp acts; needs a bare carriage return, which the
+generators do not write -- the two F14c witnesses are fixed cases of the phase).
 
 Stories: every diagnosable construct of harness/c14.py CONSTRUCTS that compile_string can diagnose, placed at every
 position of the single-file hosts of c14 (plain, blocks, join, struct: top level, inside @if / @for bodies, inside
@@ -129,6 +131,13 @@ EXTRA = {
 }
 
 COMMENTS = [" // note", "  // a -> b {x", " //c", "\t// [x] }"]
+
+
+# fixed cases outside the generators' domain: the witnesses of finding F14c (a bare carriage return inside a `~`
+# statement is a line break for CPython only; the repaired compiler keeps the reported line inside the statement:
+# "on line 2" and "on line 5")
+FIXED = [("fixed:F14c-cr9-one-line", [":: Start", "~ a = 1" + "\r" * 9 + " b c", "hello", ""]),
+         ("fixed:F14c-cr8-in-multi-line", [":: Start", "t", "~ xs = [", "  1," + "\r" * 8 + "  2 3,", "]", "after", ""])]
 
 
 def commentable(ctx, text):
@@ -254,10 +263,11 @@ def model_sites(scratch, terms, shard=300, timeout=600):
 def phase(chk, rng, n):
     """Compare the real compiler's "line N" with the model's DSyntax index + 1 on about n malformed stories."""
     C.use_repo()
-    stories = placements(rng, max(1, (n * 4) // 5)) + mutated(rng, max(1, n // 2))
-    cases, skipped, continuation = [], {}, 0
+    stories = FIXED + placements(rng, max(1, (n * 4) // 5)) + mutated(rng, max(1, n // 2))
+    cases, skipped, continuation, beyond = [], {}, 0, 0
     for label, lines in stories:
-        if not all(C.is_ascii(l) and "\n" not in l and "\r" not in l and len(l) <= MAX_LINE for l in lines):
+        if not all(C.is_ascii(l) and "\n" not in l and ("\r" not in l or label.startswith("fixed:"))
+                   and len(l) <= MAX_LINE for l in lines):
             skipped["outside-model-domain"] = skipped.get("outside-model-domain", 0) + 1
             continue
         r = real_diag(lines)
@@ -271,10 +281,7 @@ def phase(chk, rng, n):
         adj = max(pr.errline.values(), default=0)
         if adj and head.startswith("✗ Invalid Python Syntax"):
             continuation += 1
-        for src, off in pr.errline.items():
-            if off > src.count("\n"):           # premise errline_inside of DiagCulprit.culprit_stmt_site
-                chk.disagree("oracle-premise", f"{label}: Python blames line {off + 1} of a statement of "
-                             f"{src.count(chr(10)) + 1} line(s)", {"lines": lines, "statement": src, "offset": off})
+        beyond += sum(1 for src, off in pr.errline.items() if off > src.count("\n"))
         try:
             term = icase_term(lines, pr, expect)
         except ValueError:
@@ -310,6 +317,7 @@ def phase(chk, rng, n):
     info = {"stories_compared": len(cases), "disagreements": len(bad), "by_kind": by_kind,
             "distinct_sites": len(by_site), "by_site": dict(sorted(by_site.items())),
             "construct_context_families": len(fams), "stmt_blamed_continuation_line": continuation,
+            "stmt_offset_beyond_text": beyond,
             "not_compared": skipped,
             "rule": "a story counts when the real compiler raises SyntaxError on it; kind (a) = the model's culprit "
                     "predicate holds of the indexed line, (s) = site stmt:python-syntax and the indexed line lies inside "
